@@ -30,6 +30,10 @@ def main(argv):
         print("replay did not reproduce")
         return 0
     prop = argv[0]
+    import time
+    # an overall wall-clock budget for the exploration (a change under test can blow the path count up): whatever
+    # was found until then is still replayed and reported, the run itself counts as not exhausted
+    os.environ.setdefault("HSVERIF_DEADLINE", str(time.time() + (4 * 3600 if tier == "thorough" else 1200)))
     try:
         mod = importlib.import_module("props." + prop)
         return mod.main(tier)
